@@ -362,9 +362,13 @@ func checkC12(c *mc.Ctx) {
 
 	// payload boundaries: PES_packet_length in {0, exact, shorter, longer than available}
 	nb := 0
-	for _, sid := range []uint8{0xe0, 0xc0, 0xbe} {
+	// payload contents: ordinary bytes, a tail of 0xFF, only 0xFF, only 0x00, a PES start code first: the
+	// boundary is a matter of lengths only, never of what the bytes are
+	contents := [][]byte{pesPayloadBytes(60), append(pesPayloadBytes(57), 0xff, 0xff, 0xff), bytes.Repeat([]byte{0xff}, 60), bytes.Repeat([]byte{0x00}, 60), append([]byte{0, 0, 1, 0xe0, 0, 0, 0x80, 0, 0}, pesPayloadBytes(51)...)}
+	for ci := 0; ci < len(contents)*3; ci++ {
+		sid := []uint8{0xe0, 0xc0, 0xbe}[ci%3]
 		h := pesShape(1, sid)
-		payload := pesPayloadBytes(60)
+		payload := contents[ci/3]
 		exact := len(h.OptHeaderIfAny()) + len(payload)
 		for _, l := range []int{0, exact, exact - 1, exact - 20, exact - len(payload), exact + 1, exact + 500} {
 			nb++
@@ -396,7 +400,7 @@ func checkC12(c *mc.Ctx) {
 			c.Ev.Class("payload-boundary", 1)
 		}
 	}
-	c.Ev.AddScenario(mc.Scenario{Name: "payload boundaries", SpaceSize: int64(nb), Executed: int64(nb), Exhaustive: true, Bound: "PES_packet_length 0, exact, exact-1, exact-20, header only, exact+1, exact+500 x 3 stream ids"})
+	c.Ev.AddScenario(mc.Scenario{Name: "payload boundaries", SpaceSize: int64(nb), Executed: int64(nb), Exhaustive: true, Bound: "PES_packet_length 0, exact, exact-1, exact-20, header only, exact+1, exact+500 x 3 stream ids x 5 payload contents (ordinary, 0xFF tail, all 0xFF, all 0x00, start code first)"})
 
 	// timestamps through parse/write
 	tsCheck := func(v uint64) {
